@@ -256,6 +256,7 @@ class Ctx:
         import hypothesis
         from hypothesis import HealthCheck, Phase, given, settings
 
+        flaky_retries = 0
         for rnd in range(3 if self.tier == "quick" else MAX_ROOT_CAUSES):
             self._begin(prop)
             sd = int.from_bytes(hashlib.blake2b(f"{self.seed}/{self.shard}/{prop}/{rnd}".encode(),
@@ -287,7 +288,16 @@ class Ctx:
                     self.classes["shrink_interrupted"] += 1
                     self._record()
                     continue
-                raise HarnessError(f"hypothesis: {type(ex).__name__}: {ex}") from ex
+                if isinstance(ex, hypothesis.errors.FlakyStrategyDefinition) and flaky_retries < 2:
+                    # a generator whose alternatives depended on Hypothesis-internal state: no statement about the
+                    # code under test; the cases before it were checked. Explore again from the next derived seed.
+                    flaky_retries += 1
+                    self.classes["generator_inconsistency_retried"] += 1
+                    self.note(f"{prop}: Hypothesis reported inconsistent data generation in round {rnd}; "
+                              f"the round was repeated from the next derived seed")
+                    continue
+                raise HarnessError(f"hypothesis: {type(ex).__name__}: {ex}\n"
+                                   f"{''.join(traceback.format_tb(ex.__traceback__))[-6000:]}") from ex
             break
         self._begin("")
 
@@ -358,7 +368,9 @@ def run_sharded(ctx: Ctx, mod, fname: str, nshards: int, **kwargs) -> None:
     args = [(mod.__name__, fname, ctx.pid, ctx.tier, ctx.seed, i + 1, nshards, ctx.known, kwargs)
             for i in range(nshards)]
     mp = multiprocessing.get_context("fork")
-    with mp.Pool(min(nshards, os.cpu_count() or 1)) as pool:
+    # maxtasksperchild=1: every shard starts from a fresh fork of the parent, so nothing a shard leaves behind in its
+    # process (Hypothesis's strategy cache, numpy error state) can reach another shard, whichever worker picks it up
+    with mp.Pool(min(nshards, os.cpu_count() or 1), maxtasksperchild=1) as pool:
         for status, payload in pool.imap_unordered(_shard_entry, args):
             if status != "ok":
                 raise HarnessError(payload)
